@@ -25,15 +25,29 @@ JudgeStack(e, pre) ==
   ELSE LET r == StackOp(e.act.elem, e.act.m, e.act.args, pre.s) IN
        Expect(e.post.s = r.post /\ RetEq(e.ret, r.ret), subj, "C16", "contents or return value differ from the plain sequence")
 
+\* The abstract level decides C17: the live items as the public API shows them (iteration oldest first, indexed
+\* access in the buffer's own order) against the bounded sequence.  The implementation-level ring (cursors and
+\* cells, read from the Debug output while it still shows them) is judged as extended coverage only: another
+\* representation that behaves like the bounded sequence is not a violation of C17.
+AbsView(kind, st) ==       \* is the recorded abstract state self-consistent?
+  /\ st.size = Len(st.live) /\ Len(st.by_get) = Len(st.live) /\ Len(st.live) <= st.cap
+  /\ \A i \in 1..Len(st.live) : st.by_get[i] = IF kind = "stack" THEN st.live[Len(st.live) + 1 - i] ELSE st.live[i]
+BagOfInts(str) == IF str = "" THEN <<>> ELSE SplitAt(str, 1, 1, " ")
 JudgeBuffer(e, pre) ==
   LET subj == "buffer." \o e.act.m IN
   IF Crashed(e) THEN V("crash", subj, "C17", e.post.msg)
-  ELSE LET ri == RingOp(e.act.kind, e.act.m, e.act.args, pre)
-           ab == AbsOp(e.act.kind, pre.cap, e.act.m, e.act.args, Live(pre))
-       IN IF ~(e.post = ri.post /\ RetEq(e.ret, ri.ret))
-          THEN V("mismatch", subj, "C17", "differs from the ring implementation model (cursors / cells / return value)")
-          ELSE IF ~(Live(e.post) = ab.post /\ RetEq(e.ret, ab.ret) /\ RingInv(e.post))
-          THEN V("mismatch", subj, "C17", "differs from the abstract bounded sequence")
+  ELSE LET ab == AbsOp(e.act.kind, pre.cap, e.act.m, e.act.args, pre.live)
+           retOK == IF e.act.m = "to_string"       \* C17: exactly the live items; the order of the text is extended coverage
+                    THEN e.ret.t = "val" /\ IsPerm(BagOfInts(e.ret.v), [i \in 1..Len(pre.live) |-> ToString(pre.live[i])])
+                    ELSE RetEq(e.ret, ab.ret)
+       IN IF ~(e.post.live = ab.post /\ e.post.cap = pre.cap /\ retOK /\ AbsView(e.act.kind, e.post))
+          THEN V("mismatch", subj, "C17", "differs from the abstract bounded sequence (live items / return value / size <= capacity)")
+          ELSE IF ~RetEq(e.ret, ab.ret) THEN V("mismatch", subj, "EXT", "to_string lists the live items in another order than newest first")
+          ELSE IF pre.ring.t = "ring" /\ e.post.ring.t = "ring"
+          THEN LET ri == RingOp(e.act.kind, e.act.m, e.act.args, pre.ring) IN
+               IF [x \in DOMAIN ri.post |-> e.post.ring[x]] = ri.post /\ RetEq(e.ret, ri.ret) /\ RingInv(e.post.ring) /\ Live(e.post.ring) = e.post.live
+               THEN Ok(subj)
+               ELSE V("mismatch", subj, "EXT", "differs from the ring implementation model (cursors / cells)")
           ELSE Ok(subj)
 
 \* Graph API on [gs, nid]: gs[1] the working graph, the rest snapshots (newest first)
@@ -64,14 +78,21 @@ GraphOp(m, a, s) ==
     \* the texts are judged by JudgeGraph (TextOK / DiffTextOK): only the shape of the answer is fixed here
     [] m = "to_string"   -> PR(s, RVal(""))
     [] m = "diff_text"   -> PR(s, IF a[1] >= Len(s.gs) THEN RNone ELSE IF Differ(s.gs[a[1] + 1], g) THEN RVal("") ELSE RUnit)
+\* `==` on graphs is not part of C18 (it ignores states and weights and looks at list order): extended coverage,
+\* and only its necessary condition can be stated on the canonical value: different node or edge sets => FALSE
 JudgeGraph(e, pre) ==
   LET subj == "graph." \o e.act.m IN
   IF Crashed(e) THEN V("crash", subj, "C18", e.post.msg)
   ELSE LET r == GraphOp(e.act.m, e.act.args, pre) IN
-       IF e.act.m \in {"to_string", "diff_text"} /\ e.post = r.post /\ e.ret.t = r.ret.t /\ r.ret.t = "val"
+       IF e.act.m = "eq" THEN
+          (IF e.post # r.post \/ e.ret.t # r.ret.t THEN V("mismatch", subj, "C18", "comparing graphs changed them / wrong answer shape")
+           ELSE Expect(r.ret.t # "val" \/ r.ret.v \/ ~e.ret.v, subj, "EXT", "== holds for graphs with different node or edge sets"))
+       ELSE IF e.act.m \in {"to_string", "diff_text"} /\ e.post = r.post /\ e.ret.t = r.ret.t /\ r.ret.t = "val"
+       \* the diff is non-empty exactly when the snapshots differ (C18, decided above by the answer's shape); what the
+       \* texts say is extended coverage
        THEN Expect(IF e.act.m = "to_string" THEN TextOK(e.ret.v, pre.gs[1])
                    ELSE DiffTextOK(e.ret.v, pre.gs[e.act.args[1] + 1], pre.gs[1]),
-                   subj, "C18", "the text does not list exactly the nodes / edges / changes of the model (lines, counts, grouping)")
+                   subj, "EXT", "the text does not list exactly the nodes / edges / changes of the model (lines, counts)")
        ELSE IF ~(e.post = r.post /\ RetEq(e.ret, r.ret)) THEN V("mismatch", subj, "C18", "graphs or return value differ from the model")
        ELSE Expect(\A i \in 1..Len(e.post.gs) : GraphInv(e.post.gs[i]), subj, "C18", "structural invariant G1/G2 broken")
 
@@ -203,7 +224,7 @@ JudgeIds(e, pre) ==
                  "ids", "C14", "a graph node identifier was handed out twice (or not monotonically)")
 \* the first steps (up to the driver's cap) must agree; a program that ends within the cap must end on both sides
 JudgeCli(e) ==
-  IF ~e.lib_done THEN Expect(e.cli = SubSeq(e.lib, 1, Len(e.cli)) \/ e.lib = SubSeq(e.cli, 1, Len(e.lib)), "cli", "C14",
+  IF ~e.lib_done \/ e.cut THEN Expect(e.cli = SubSeq(e.lib, 1, Len(e.cli)) \/ e.lib = SubSeq(e.cli, 1, Len(e.lib)), "cli", "C14",
                              "the command-line front end and the library disagree on the stacks of some step (diverging program)")
   ELSE Expect(e.cli = e.lib /\ e.done, "cli", "C14", "the command-line front end and the library disagree on the stacks of some step")
 
